@@ -1,0 +1,232 @@
+//go:build verif
+
+package broadcast
+
+// Accessors for the /verif harnesses (properties C33, C34). Add-only, compiled only with -tags verif.
+// VerifNewLt builds the broadcast protocol state on a caller-supplied environment WITHOUT starting
+// any background goroutine, so that the loop bodies can be stepped one tick at a time; StartLoops
+// starts the unmodified production loops (used only in a child process of the harness).
+
+import (
+	"container/list"
+
+	"github.com/33cn/chain33/common/pubsub"
+	"github.com/33cn/chain33/p2p/utils"
+	"github.com/33cn/chain33/system/p2p/dht/protocol"
+	"github.com/33cn/chain33/types"
+	ps "github.com/libp2p/go-libp2p-pubsub"
+	"github.com/libp2p/go-libp2p/core/peer"
+)
+
+// VerifLt wraps a broadcastProtocol whose loops are not running.
+type VerifLt struct {
+	p  *broadcastProtocol
+	pb *pubSub
+}
+
+// VerifNewLt mirrors broadcastProtocol.init / initPubSubBroadcast / initValidator /
+// initLightBroadcast minus every `go` statement and minus the libp2p topic registration.
+func VerifNewLt(env *protocol.P2PEnv) *VerifLt {
+	p := &broadcastProtocol{syncStatus: true}
+	p.P2PEnv = env
+	p.ps = pubsub.NewPubSub(1024)
+	p.cfg = env.SubConfig.Broadcast
+	p.setDefaultConfig()
+	p.txFilter = utils.NewFilter(p.cfg.TxFilterLen)
+	p.blockFilter = utils.NewFilter(p.cfg.BlockFilterLen)
+	pb := &pubSub{broadcastProtocol: p}
+	pb.peerTopic = pb.getPeerTopic(p.Host.ID())
+	pb.val = newValidator(pb)
+	p.val = pb.val
+	l := &ltBroadcast{broadcastProtocol: p}
+	l.pendBlockList = list.New()
+	l.blockRequestList = list.New()
+	p.ltB = l
+	return &VerifLt{p: p, pb: pb}
+}
+
+// StartLoops starts the production background loops exactly as init does.
+func (v *VerifLt) StartLoops() {
+	go v.p.val.manageDeniedPeer()
+	go v.p.ltB.pendBlockLoop()
+	go v.p.ltB.blockRequestLoop()
+}
+
+// Topic names and message ids.
+const (
+	VerifTxTopic      = psTxTopic
+	VerifBatchTxTopic = psBatchTxTopic
+	VerifBlockTopic   = psBlockTopic
+	VerifLtBlockTopic = psLtBlockTopic
+	VerifBlockReqID   = blockReqMsgID
+	VerifBlockRespID  = blockRespMsgID
+)
+
+// PeerTopic is the per-peer message topic.
+func (v *VerifLt) PeerTopic(id peer.ID) string { return v.p.getPeerTopic(id) }
+
+// SetTimeout sets cfg.LtBlockPendTimeout (milliseconds).
+func (v *VerifLt) SetTimeout(ms int64) { v.p.cfg.LtBlockPendTimeout = ms }
+
+// Timeout returns cfg.LtBlockPendTimeout.
+func (v *VerifLt) Timeout() int64 { return v.p.cfg.LtBlockPendTimeout }
+
+// SetHeight sets the current chain height as handleAddBlock would.
+func (v *VerifLt) SetHeight(h int64) {
+	v.p.handleAddBlock(v.p.QueueClient.NewMessage("p2p", types.EventAddBlock, &types.Block{Height: h}))
+}
+
+// Receive is handleBroadcastReceive (the function that carries the recover).
+func (v *VerifLt) Receive(topic string, value types.Message, from, publisher peer.ID) {
+	v.p.handleBroadcastReceive(subscribeMsg{topic: topic, value: value, receiveFrom: from, publisher: publisher})
+}
+
+// NewMsg / DecodeMsg / EncodeMsg are the wire helpers of pubsub.go.
+func (v *VerifLt) NewMsg(topic string) types.Message { return v.pb.newMsg(topic) }
+
+// DecodeMsg decompresses and decodes.
+func (v *VerifLt) DecodeMsg(raw []byte, msg types.Message) error {
+	return v.pb.decodeMsg(raw, nil, msg)
+}
+
+// EncodeMsg encodes and compresses.
+func (v *VerifLt) EncodeMsg(msg types.Message) []byte {
+	var buf []byte
+	return v.pb.encodeMsg(msg, &buf)
+}
+
+// BuildLtBlock is buildLtBlock.
+func (v *VerifLt) BuildLtBlock(b *types.Block) *types.LightBlock { return v.p.buildLtBlock(b) }
+
+// AddLtBlock calls addLtBlock directly (no recover here).
+func (v *VerifLt) AddLtBlock(lb *types.LightBlock, from, publisher peer.ID) {
+	v.p.ltB.addLtBlock(lb, from, publisher)
+}
+
+// BuildPendList calls buildPendList and returns the heights/senders of the timed-out blocks.
+func (v *VerifLt) BuildPendList() (heights []int64, from []peer.ID) {
+	for _, pd := range v.p.ltB.buildPendList() {
+		heights = append(heights, pd.block.GetHeight())
+		from = append(from, pd.fromPeer)
+	}
+	return
+}
+
+// verifPendTick is, statement for statement, the body of `case <-ticker.C:` in pendBlockLoop
+// (the harness compares the two syntax trees on every run).
+func (l *ltBroadcast) verifPendTick() {
+	pdBlocks := l.buildPendList()
+	for _, pd := range pdBlocks {
+		// 只请求大于本地高度的区块
+		if pd.block.GetHeight() > l.getCurrentHeight() {
+			l.pubPeerMsg(pd.fromPeer, blockReqMsgID, &types.ReqInt{Height: pd.block.GetHeight()})
+		}
+	}
+}
+
+// PendTick runs one tick of pendBlockLoop.
+func (v *VerifLt) PendTick() { v.p.ltB.verifPendTick() }
+
+// ReqTick runs one tick of blockRequestLoop (its case body is the single call below).
+func (v *VerifLt) ReqTick() { v.p.ltB.handleBlockReqList() }
+
+// verifDeniedTick is, statement for statement, the body of `case <-waitMsgReplyTicker.C:` in
+// manageDeniedPeer (compared by the harness).
+func (v *validator) verifDeniedTick() {
+	//将数据复制和等待反馈分离, 避免占用list导致广播模块处理逻辑阻塞
+	v.copyMsgList()
+	for _, bcMsg := range v.msgBuf {
+		// 等待blockchain或mempool的广播校验结果
+		msg, err := v.P2PEnv.QueueClient.Wait(bcMsg.msg)
+		// 理论上不会出错, 只做日志记录
+		if msg == nil || err != nil {
+			log.Error("manageDeniedPeer", "wait msg err", err)
+			continue
+		}
+		reply, ok := msg.Data.(*types.Reply)
+		if !ok {
+			continue
+		}
+		v.handleBroadcastReply(reply, bcMsg)
+
+	}
+}
+
+// DeniedTick runs one tick of manageDeniedPeer's reply collection.
+func (v *VerifLt) DeniedTick() { v.p.val.verifDeniedTick() }
+
+// PendLen is the number of queued light blocks.
+func (v *VerifLt) PendLen() int {
+	v.p.ltB.pdBlockLock.RLock()
+	defer v.p.ltB.pdBlockLock.RUnlock()
+	return v.p.ltB.pendBlockList.Len()
+}
+
+// ReqLen is the number of queued block requests.
+func (v *VerifLt) ReqLen() int {
+	v.p.ltB.blockReqLock.RLock()
+	defer v.p.ltB.blockReqLock.RUnlock()
+	return v.p.ltB.blockRequestList.Len()
+}
+
+// MsgListLen is the number of posted messages whose verdict has not been collected yet.
+func (v *VerifLt) MsgListLen() int {
+	v.p.val.msgLock.Lock()
+	defer v.p.val.msgLock.Unlock()
+	return v.p.val.msgList.Len()
+}
+
+// PendSlots returns, per queued block, which transaction slots are filled.
+func (v *VerifLt) PendSlots() [][]bool {
+	v.p.ltB.pdBlockLock.RLock()
+	defer v.p.ltB.pdBlockLock.RUnlock()
+	var out [][]bool
+	for it := v.p.ltB.pendBlockList.Front(); it != nil; it = it.Next() {
+		pd := it.Value.(*pendBlock)
+		s := make([]bool, len(pd.block.Txs))
+		for i, tx := range pd.block.Txs {
+			s[i] = tx != nil
+		}
+		out = append(out, s)
+	}
+	return out
+}
+
+// Outgoing subscribes to what the protocol publishes to the network (publishMsg values).
+func (v *VerifLt) Outgoing() chan interface{} { return v.p.ps.Sub(psBroadcast) }
+
+// PubSentinel publishes x on the outgoing topic (FIFO marker for draining).
+func (v *VerifLt) PubSentinel(x interface{}) { v.p.ps.Pub(x, psBroadcast) }
+
+// VerifPublished decodes an element of Outgoing.
+func VerifPublished(x interface{}) (topic string, msg types.Message, ok bool) {
+	m, ok := x.(publishMsg)
+	if !ok {
+		return "", nil, false
+	}
+	return m.topic, m.msg, true
+}
+
+// Validate runs the topic validator registered for topic on a raw pubsub message.
+func (v *VerifLt) Validate(topic string, from peer.ID, m *ps.Message) ps.ValidationResult {
+	switch topic {
+	case psBlockTopic:
+		return v.p.val.validateBlock(v.p.Ctx, from, m)
+	case psTxTopic:
+		return v.p.val.validateTx(v.p.Ctx, from, m)
+	case psBatchTxTopic:
+		return v.p.val.validateBatchTx(v.p.Ctx, from, m)
+	default:
+		return v.p.val.validatePeer(v.p.Ctx, from, m)
+	}
+}
+
+// IsDenied reports isDeniedPeer.
+func (v *VerifLt) IsDenied(id peer.ID) bool { return v.p.val.isDeniedPeer(id) }
+
+// HeaderCacheLen is the size of the validator's block header cache.
+func (v *VerifLt) HeaderCacheLen() int {
+	v.p.val.headerLock.Lock()
+	defer v.p.val.headerLock.Unlock()
+	return len(v.p.val.blkHeaderCache)
+}
